@@ -250,6 +250,14 @@ func oneRequest(sess *session, c e2eCase, variant string, step int) error {
 		secret = append([]byte("x"), secret...)
 	case "unknownkey":
 		t.KeyName = append(ref.Labels{[]byte("no")}, keyL...)
+	case "unknownkey-emptysecret", "unknownkey-namesecret":
+		// a key name the server has no secret for, MACed with what a sloppy lookup would come up with:
+		// the empty secret (the zero value of a missing map entry) or the name itself
+		t.KeyName = append(ref.Labels{[]byte("no")}, keyL...)
+		secret = nil
+		if c.Variant == "unknownkey-namesecret" {
+			secret = []byte("no." + key.name)
+		}
 	case "casekey":
 		t.KeyName = invertCase(keyL)
 		canonicalName = false
@@ -424,7 +432,7 @@ func genE2E(t *rapid.T) e2eCase {
 		c.Msg.Question = []msgspec.Q{{Name: 0, Type: 1, Class: 1}}
 	}
 	c.Key = rapid.IntRange(0, len(e2eKeys)-1).Draw(t, "key")
-	c.Variant = rapid.SampledFrom([]string{"good", "good", "edge", "late", "early", "tampered", "tampered", "wrongsecret", "unknownkey", "casekey", "none", "libsigned", "multi", "multi"}).Draw(t, "variant")
+	c.Variant = rapid.SampledFrom([]string{"good", "good", "edge", "late", "early", "tampered", "tampered", "wrongsecret", "unknownkey", "unknownkey-emptysecret", "unknownkey-namesecret", "casekey", "none", "libsigned", "multi", "multi"}).Draw(t, "variant")
 	c.Fudge = rapid.OneOf(rapid.Just(uint16(300)), rapid.Uint16Range(300, 65535)).Draw(t, "fudge")
 	c.FlipBit = rapid.IntRange(0, 1<<20).Draw(t, "flipbit")
 	c.UpperAlg = rapid.IntRange(0, 3).Draw(t, "upperalg") == 0
